@@ -160,7 +160,10 @@ func VerifH_C09_lokiStatusCodes() {
 	batch := pipeline.NewPreparedBatch([]*pipeline.Event{{Root: root, Size: 30}})
 	pipeline.VerifBatchMarkIterable(batch, true)
 	var wd pipeline.WorkerData
-	err := p.out(&wd, batch)
+	var err error
+	// several workers run out() on the one plugin object at once: whatever it writes must be per worker (WorkerData)
+	writes := vf.SharedWrites(p, func() { err = p.out(&wd, batch) })
+	vf.Assert(writes == 0, "out-does-not-write-to-the-plugin-shared-by-the-workers")
 	done := verifCode == 204 || verifCode == 400
 	if vf.Param("twin", 0) == 1 {
 		vf.Assert((err == nil) != done, "push-reported-done-only-for-204-or-400")
